@@ -96,7 +96,8 @@ impl FeelDaysAndTimeDuration {
   }
   /// Returns the seconds component of this duration with sign.
   pub fn as_seconds(&self) -> isize {
-    (self.0 / NANOSECONDS_IN_SECOND) as isize
+    // a length beyond the result type is clamped, it must not wrap around into some other length
+    isize::try_from(self.0 / NANOSECONDS_IN_SECOND).unwrap_or(if self.0 < 0 { isize::MIN } else { isize::MAX })
   }
   /// Returns absolute value of the duration.
   pub fn abs(&self) -> Self {
